@@ -12,7 +12,7 @@ use slotted_egraphs::*;
 use std::collections::BTreeSet;
 use std::sync::Arc;
 
-type P = Vec<u8>;
+pub type P = Vec<u8>;
 
 fn compose(a: &P, b: &P) -> P {
     // first a then b
@@ -162,7 +162,7 @@ fn run_direct(c: &GroupCase, obs: &mut Obs) -> Result<(), String> {
     Ok(())
 }
 
-fn leaf_term(k: usize, p: &P) -> Tm {
+pub fn leaf_term(k: usize, p: &P) -> Tm {
     let op = ["", "v", "f2", "g3", "g4", "g5", "g6"][k];
     Tm::leaf(op, &p.iter().map(|x| *x as Name).collect::<Vec<_>>())
 }
@@ -347,7 +347,7 @@ fn exhaustive_sets(max_k: usize) -> Vec<GroupCase> {
     out
 }
 
-fn structured_perm(k: usize, src: &mut Src) -> P {
+pub fn structured_perm(k: usize, src: &mut Src) -> P {
     // product of 1-2 disjoint cycles over chosen points (gives many proper subgroups), or a uniformly random permutation
     let mut p: P = (0..k as u8).collect();
     if src.pick(4) == 0 {
